@@ -167,10 +167,22 @@ class Run(object):
     def step(self, name):
         V = self.V
         ev = self.enabled()
+        running = self.__dict__.setdefault('running', [])
+        if 'respond' in running:
+            # a pre-empting event belongs to another thread: the event-loop thread delivers one response at a time
+            ev = [x for x in ev if x[0] != 'respond']
         if not ev:
             return None
         e = ev[V.choice(name, len(ev))]
         kind = e[0]
+        running.append(kind)
+        try:
+            return self._do(name, e, kind)
+        finally:
+            running.pop()
+
+    def _do(self, name, e, kind):
+        V = self.V
         if kind == 'respond':
             rk = self.responses[V.choice(name + '_resp', len(self.responses))]
             self.trace.append('respond:' + rk)
@@ -214,7 +226,7 @@ def arm_race(V, run, budget=1):
     holds no lock, another thread performs one of the enabled events (a response, a timer, a queued task, a socket error)"""
     from harness import kit
     pre = kit.Preempter(V, None, lambda *a: run.step('pre%d' % pre.used), only_unlocked=True, budget=budget,
-                        enabled=lambda: bool(run.enabled()))
+                        enabled=lambda: any(x[0] != 'respond' or 'respond' not in run.__dict__.get('running', ()) for x in run.enabled()))
     run.rf._callback_lock = kit.SchedLock('callback_lock', pre)
     for c in run.world.w.conns:
         c.lock = kit.SchedLock('connection.lock', pre)
